@@ -21,3 +21,30 @@ package main
 //@   assume @before:TerminateParent deref(inst) != nil && deref(inst).Restarter != nil
 //@   modifies all, childsteps, childlast
 //@   callpre TerminateParent @the-parent-is-terminated-last childlast == 3
+
+// ---- C17: each step of the old instance runs under its own Once: performing one step never uses up another ------
+
+//@ func (*instance).ShutdownAdmin
+//@   prop C17
+//@   requires inst != nil
+//@   modifies all
+//@   callpre Do @the-admin-step-runs-under-its-own-once arg0 == inst.shutdownAdminOnce
+
+//@ func (*instance).ShutdownAdmin$1
+//@   prop C17
+//@   requires deref(inst) != nil
+//@   modifies all
+//@   onlycalls Infof admin.(*Server).Stop
+
+//@ func (*instance).DrainListeners
+//@   prop C17
+//@   requires inst != nil
+//@   modifies all
+//@   callpre Do @the-drain-step-runs-under-its-own-once arg0 == inst.drainListenersOnce
+
+//@ func (*instance).DrainListeners$1
+//@   prop C17
+//@   requires deref(inst) != nil
+//@   assume @before:DrainListeners ctlwf(deref(inst).ctl)
+//@   modifies all
+//@   onlycalls Infof (*Controller).DrainListeners
